@@ -753,6 +753,12 @@ def h_take(I, a, k, st, n):
     return lm.subscript_value(I, a[0], (a[1],), st)
 
 
+def h_globals(I, a, k, st, n):
+    """globals(): the module namespace of the function being interpreted (looked up by name: a naming-scheme dispatch)."""
+    g = I.module_globals(st.mod) if getattr(st, "mod", None) else {}
+    return DictVal(dict(g), open_=True)
+
+
 def h_squeeze(I, a, k, st, n):
     """np.squeeze drops every axis of length 1 (an axis of symbolic length is a generic one and stays)."""
     o = a[0]
@@ -897,6 +903,7 @@ _reg("numpy.pad", h_pad)
 _reg("numpy.correlate", h_correlate)
 _reg("numpy.allclose", h_allclose)
 _reg("numpy.squeeze", h_squeeze)
+_reg("builtins.globals", h_globals)
 _reg("numpy.take", h_take)
 _reg("numpy.broadcast_to", h_broadcast_to)
 _reg("scipy.signal.correlate", lambda I, a, kw, st, n: h_correlate(I, a, dict({"mode": a[2] if len(a) > 2 else "full"}, **kw), st, n))
@@ -1081,7 +1088,11 @@ def call_method(I, o, name, args, kw, st, n):
         if o.cls and I.repo.has(o.cls):
             m = I.find_method(o.cls, name)
             if m is not None:
-                return I.call_func(Func(m, I.repo.get(m)), [o] + list(args), kw, st, n)
+                node_ = I.repo.get(m)
+                decos = {ast.unparse(d) for d in getattr(node_, "decorator_list", [])}
+                if "staticmethod" in decos: return I.call_func(Func(m, node_), list(args), kw, st, n)
+                if "classmethod" in decos: return I.call_func(Func(m, node_), [Func(o.cls, I.repo.get(o.cls))] + list(args), kw, st, n)
+                return I.call_func(Func(m, node_), [o] + list(args), kw, st, n)
         return Opaque(f"method {name}")
     return Opaque(f"method {name} of {type(o).__name__}")
 
